@@ -16,10 +16,11 @@ def check_c03(prop, tier, seed):
     ]
     core.build_pgcat()
     maxlen = 6 if tier == 'quick' else 7
-    for name, dev, must in (('design', '{}', True), ('asbuilt', '{"copydone_single_recv"}', False), ('asbuilt2', '{"copyin_keeps_da"}', False)):
+    for name, dev, must in (('design', '{}', True), ('asbuilt', '{"copydone_single_recv"}', False), ('asbuilt2', '{"copyin_keeps_da"}', False),
+                            ('single_write', '{"single_write"}', False)):
         cfg = 'MC_Relay_%s_gen.cfg' % name
         with open(os.path.join(tlc.SPEC, cfg), 'w') as f:
-            f.write('SPECIFICATION RSpec\nCONSTANTS\n  T = 8196\n  Dev = %s\n  MaxLen = %d\n  Small = 40\n  Big = 9000\n'
+            f.write('SPECIFICATION RSpec\nCONSTANTS\n  T = 8196\n  Window = 8196\n  Dev = %s\n  MaxLen = %d\n  Small = 40\n  Big = 9000\n'
                     'INVARIANT AllComplete\n' % (dev, maxlen))
         res = tlc.run_tlc('Relay', cfg, workers=12, timeout=2400, xmx='16g')
         v.add_mc('mc:' + name, res)
@@ -32,7 +33,7 @@ def check_c03(prop, tier, seed):
                 v.tool_error('Relay asbuilt: expected AllComplete to fail')
     glen = 5
     with open(os.path.join(tlc.SPEC, 'Gen_Relay.cfg'), 'w') as f:
-        f.write('SPECIFICATION RSpec\nCONSTANTS\n  T = 8196\n  Dev = {}\n  MaxLen = %d\n  Small = 40\n  Big = 9000\nINVARIANT EmitStream\n' % glen)
+        f.write('SPECIFICATION RSpec\nCONSTANTS\n  T = 8196\n  Window = 8196\n  Dev = {}\n  MaxLen = %d\n  Small = 40\n  Big = 9000\nINVARIANT EmitStream\n' % glen)
     res = tlc.run_tlc('Gen_Relay', 'Gen_Relay.cfg', workers=8, timeout=1200)
     if res.rc != 0:
         v.tool_error('Gen_Relay rc=%d' % res.rc)
@@ -85,6 +86,14 @@ def check_c03(prop, tier, seed):
     items = [{'id': j + 1, 'stream': st, 'seed': seed * 7907 + j, 'tls': (j % 6 == 5),
               'mode': 'session' if j % 9 == 8 else 'transaction', 'pre': 'lone_sync' if j % 4 == 1 else None}
              for j, st in enumerate(chosen)]
+    # back-pressure: some replies with big rows / COPY data are made of many megabytes and meet a client that reads late
+    nfl = 0
+    for it in items:
+        if not it['tls'] and any(k in ('D', 'd') and sz >= 8196 for k, sz in it['stream']) and it['id'] % 5 == 2 \
+                and nfl < {'quick': 12, 'thorough': 60}[tier]:
+            it['flood'] = True
+            nfl += 1
+    v.extra['flooded_replies'] = nfl
     results = core.run_parallel(relay.run_relay, items, workers=14)
     recs = []
     for it, r in zip(items, results):
